@@ -250,6 +250,9 @@ func (c *aeCtx) explore(n int, limit int, body func(w *world)) int {
 				w2.rel[k] = v
 				w2.order = append(w2.order, k)
 			}
+			if c.filter != nil && !c.filter(w2) {
+				continue
+			}
 			rec(w2)
 		}
 	}
